@@ -326,7 +326,7 @@ impl Check for C19 {
     }
     fn default_runs(&self, tier: Tier) -> u64 {
         match tier {
-            Tier::Quick => 4000,
+            Tier::Quick => 9000,
             Tier::Thorough => 150000,
         }
     }
